@@ -547,13 +547,15 @@ theorem sigL_aCase (ch : Text) (st : ASt) (ks ks' : List FNode) (st' : ASt)
   · cases h
   · split at h
     · cases h
-    · rename_i items _
-      cases hl : aCaseLoop ch st _ 0 (tagAll ks) items with
-      | error e => rw [hl] at h; cases h
-      | ok tl' =>
-        rw [hl] at h
-        simp only [Except.map, Except.ok.injEq, Prod.mk.injEq] at h
-        rw [← h.1, sigTL_aCaseLoop ch st _ _ _ _ _ hl, untag_tagAll]
+    · split at h
+      · cases h
+      · rename_i items _
+        cases hl : aCaseLoop ch st _ 0 (tagAll ks) items with
+        | error e => rw [hl] at h; cases h
+        | ok tl' =>
+          rw [hl] at h
+          simp only [Except.map, Except.ok.injEq, Prod.mk.injEq] at h
+          rw [← h.1, sigTL_aCaseLoop ch st _ _ _ _ _ hl, untag_tagAll]
 
 theorem sigL_aDispatch (ch : Text) (rec : ARec) (hrec : ARecPreserves rec) (c : Cls) (st : ASt) (ks ks' : List FNode) (st' : ASt)
     (h : aDispatch ch rec c st ks = .ok (ks', st')) : sigL ks' = sigL ks := by
